@@ -475,7 +475,15 @@ class Evaluator:
             return l % r
         if isinstance(op, ast.FloorDiv):
             return l // r
-        raise Unsupported("binary op")
+        if isinstance(op, ast.Div):
+            return l / r
+        if isinstance(op, ast.Pow) and isinstance(l, (int, float)) and isinstance(r, int) and abs(r) < 64:
+            return l ** r
+        if isinstance(op, (ast.BitOr, ast.BitAnd, ast.BitXor)) and type(l) is type(r) and isinstance(l, (int, bool, set, frozenset)):
+            return l | r if isinstance(op, ast.BitOr) else l & r if isinstance(op, ast.BitAnd) else l ^ r
+        if isinstance(op, (ast.LShift, ast.RShift)) and isinstance(l, int) and isinstance(r, int) and 0 <= r < 64:
+            return l << r if isinstance(op, ast.LShift) else l >> r
+        raise Unsupported(f"binary op {type(op).__name__}")
 
     def compare(self, op, a, b) -> bool:
         if isinstance(op, ast.Eq):
